@@ -35,7 +35,9 @@ package transport
 // whose address is passed is unconstrained (possibly nil) after the call.
 //@ trusted jsonDecode(r, val) (err)
 //@   nopanic
+// (writes the marshalled response to w; the response itself and everything else is left alone)
 //@ trusted writeJson(w, response)
+//@   modifies nothing
 //@ trusted writeJsonError(w, msg)
 //@ trusted writeJsonErrorf(w, format, args)
 //@ trusted writeJsonGraphqlError(w, err)
@@ -46,6 +48,13 @@ package transport
 // C03/C09: the operation is dispatched only if CreateOperationContext returned no error, at most once, and
 // then no status line other than the implicit 200 is written.
 //@ func (POST).Do [C07,C10,C03,C09,C05,C15]
+// C09 "answered with the client-error status defined for the negotiated media type": the status of an operation that
+// could not be created is computed from the executor's own error list - not from what presenters or response
+// interceptors made of it (their errors need not carry the error code)
+//@   ghost createErr = nil
+//@   at `exec.CreateOperationContext(...` ghost createErr = callres1
+//@   callsite statusFor: requires arg0 == createErr
+//@   callsite statusForGraphQLResponse: requires arg0 == createErr
 // C09 "a request whose execution started is always answered 200, and no resolver has run for any request answered with
 // a non-2xx status": once the response handler has been invoked (resolvers run in there) no panic may leave Do -
 // Server.ServeHTTP answers an escaped panic with 422 (known finding D32: the handler's own panics, e.g. from a custom
@@ -125,6 +134,13 @@ package transport
 // C09: over GET only query operations are dispatched, and it is the operation selected by the executor
 // (op == opCtx.Operation) that is checked. C03: gate. C10: no own-code panic.
 //@ func (GET).Do [C09,C03,C10,C05]
+// C09 "answered with the client-error status defined for the negotiated media type": the status of an operation that
+// could not be created is computed from the executor's own error list - not from what presenters or response
+// interceptors made of it (their errors need not carry the error code)
+//@   ghost createErr = nil
+//@   at `exec.CreateOperationContext(...` ghost createErr = callres1
+//@   callsite statusFor: requires arg0 == createErr
+//@   callsite statusForGraphQLResponse: requires arg0 == createErr
 // C09 "a request whose execution started is always answered 200, and no resolver has run for any request answered with
 // a non-2xx status": once the response handler has been invoked (resolvers run in there) no panic may leave Do -
 // Server.ServeHTTP answers an escaped panic with 422 (known finding D32: the handler's own panics, e.g. from a custom
@@ -154,6 +170,13 @@ package transport
 
 // ---------------------------------------------------------------- application/graphql
 //@ func (GRAPHQL).Do [C09,C03,C10,C05]
+// C09 "answered with the client-error status defined for the negotiated media type": the status of an operation that
+// could not be created is computed from the executor's own error list - not from what presenters or response
+// interceptors made of it (their errors need not carry the error code)
+//@   ghost createErr = nil
+//@   at `exec.CreateOperationContext(...` ghost createErr = callres1
+//@   callsite statusFor: requires arg0 == createErr
+//@   callsite statusForGraphQLResponse: requires arg0 == createErr
 // C09 "a request whose execution started is always answered 200, and no resolver has run for any request answered with
 // a non-2xx status": once the response handler has been invoked (resolvers run in there) no panic may leave Do -
 // Server.ServeHTTP answers an escaped panic with 422 (known finding D32: the handler's own panics, e.g. from a custom
@@ -189,6 +212,13 @@ package transport
 //@   ensures res1 == nil ==> res0 != nil
 //@   safe
 //@ func (UrlEncodedForm).Do [C09,C03,C10,C05]
+// C09 "answered with the client-error status defined for the negotiated media type": the status of an operation that
+// could not be created is computed from the executor's own error list - not from what presenters or response
+// interceptors made of it (their errors need not carry the error code)
+//@   ghost createErr = nil
+//@   at `exec.CreateOperationContext(...` ghost createErr = callres1
+//@   callsite statusFor: requires arg0 == createErr
+//@   callsite statusForGraphQLResponse: requires arg0 == createErr
 // C09 "a request whose execution started is always answered 200, and no resolver has run for any request answered with
 // a non-2xx status": once the response handler has been invoked (resolvers run in there) no panic may leave Do -
 // Server.ServeHTTP answers an escaped panic with 422 (known finding D32: the handler's own panics, e.g. from a custom
@@ -374,6 +404,13 @@ package transport
 // multipart reader captures r.Body); every temporary file that was created has a deferred removal registered
 // before anything else can fail (ghost counters created/scheduled); gate as for the other transports.
 //@ func (MultipartForm).Do [C10,C03,C09,C05]
+// C09 "answered with the client-error status defined for the negotiated media type": the status of an operation that
+// could not be created is computed from the executor's own error list - not from what presenters or response
+// interceptors made of it (their errors need not carry the error code)
+//@   ghost createErr = nil
+//@   at `exec.CreateOperationContext(...` ghost createErr = callres1
+//@   callsite statusFor: requires arg0 == createErr
+//@   callsite statusForGraphQLResponse: requires arg0 == createErr
 // C09 "a request whose execution started is always answered 200, and no resolver has run for any request answered with
 // a non-2xx status": once the response handler has been invoked (resolvers run in there) no panic may leave Do -
 // Server.ServeHTTP answers an escaped panic with 422 (known finding D32: the handler's own panics, e.g. from a custom
@@ -744,6 +781,11 @@ package transport
 //@   at `assign a.deferResponses` requires rhs0 == nil && calls(writeIncrementalJson) == 1
 //@   at `writeBoundary(w, a.boundary, !hasNext)` ghost lastFinal = arg2
 //@   at `writeBoundary(w, a.boundary, !hasNext)` requires arg2 == !hasNext
+// C12 "the closing boundary appears exactly once, last": the delimiter after a flush is the closing one exactly when
+// the last payload written by THIS flush does not announce more (HasNext nil or false) - decided by the payloads handed
+// in, not by anything remembered from earlier flushes
+//@   at `writeBoundary(w, a.boundary, !hasNext)` requires old(len(a.deferResponses)) > 0 ==> arg2 == !(old(a.deferResponses)[old(len(a.deferResponses)) - 1].HasNext != nil && deref(old(a.deferResponses)[old(len(a.deferResponses)) - 1].HasNext))
+//@   at `writeBoundary(w, a.boundary, !hasNext)` requires old(len(a.deferResponses)) == 0 ==> arg2 == !(old(a.initialResponse).HasNext != nil && deref(old(a.initialResponse).HasNext))
 //@   ensures old(a.initialResponse) == nil && old(len(a.deferResponses)) == 0 ==> calls(writeBoundary) == 0 && calls(writeJson) == 0 && calls(writeIncrementalJson) == 0 && calls(Flush) == 0
 //@   ensures calls(writeJson) <= 1 && calls(writeIncrementalJson) <= 1
 //@   ensures calls(writeJson) + calls(writeIncrementalJson) >= 1 ==> calls(Flush) == 1 && a.initialResponse == nil && len(a.deferResponses) == 0
